@@ -126,6 +126,100 @@ def judge_gs(inp, obs, lr):
 
 
 # ------------------------------------------------------------------------------------------------
+# S2a': indefinite_orthogonalize INCLUDING the final normalize, by value (exact roots), and make_orientation_preserving
+# ------------------------------------------------------------------------------------------------
+def gen_ortho(rng, n):
+    """rows = T @ (some rows of Q) with T lower triangular and B = Qᵀ D Q, |D_ii| rational squares: every Gram–Schmidt
+    square-norm is ± a rational square, so the model (GS.indefiniteOrthogonalize with the exact root) answers in ℚ"""
+    made = 0
+    while made < n:
+        p, q = rng.choice(SIGS)
+        B, Qm, D = L.rform(rng, p, q)
+        nn = p + q
+        k = rng.randint(1, nn)
+        idx = rng.sample(range(nn), k)
+        T = [[(F(rng.choice([-1, 1]) * rng.randint(1, 3), rng.randint(1, 2)) if j == i else
+               (F(rng.randint(-2, 2), rng.randint(1, 2)) if j < i else F(0))) for j in range(k)] for i in range(k)]
+        rows = L.mul(T, [Qm[i] for i in idx])
+        g = L.gs_exact(B, rows)
+        if not g or not all(F(1, 64) <= abs(x) <= 400 for x in g[1]):
+            continue
+        made += 1
+        yield {"sig": [p, q], "B": L.encM(B), "k": k, "rows": L.encM(rows)}
+
+
+def run_ortho(inp):
+    out = utils.indefinite_orthogonalize(Q.decf(inp["B"]), Q.decf(inp["rows"]).copy())
+    return {"shape": list(out.shape), "out": np.asarray(out, dtype=float).tolist()}
+
+
+def lean_ortho(inp, obs):
+    return [{"op": "c18.ortho", "form": inp["B"], "rows": inp["rows"]}]
+
+
+def judge_ortho(inp, obs, lr):
+    tags = {"fn": "indefinite_orthogonalize", "sig": inp["sig"], "normalized": True}
+    if "exc" in obs:
+        return {"expected": "orthonormalised rows", "observed": obs, "tags": dict(tags, exc=obs["exc"]), "property_failure": True}
+    if "err" in lr[0]:
+        return {"expected": "model answer", "observed": lr[0], "tags": dict(tags, driver_err=lr[0]["err"])}
+    mv = Q.decf(lr[0]["ok"])
+    # orthonormal rows of a flag: each row up to its sign, and nothing more is compared
+    if obs["shape"] != list(mv.shape) or not rows_close_pm(np.array(obs["out"]), mv, 1e-8):
+        return {"expected": {"rows up to sign": mv.tolist()}, "observed": obs["out"], "tags": tags}
+    return None
+
+
+def gen_orient(rng, n):
+    made = 0
+    while made < n:
+        m = rng.choice([1, 2, 2, 3, 3, 4, 5])
+        shape = rng.choice(SHAPES)
+        mats = []
+        for _ in range(cnt(shape)):
+            M = Q.rmat(rng, m, m, 3, 2)
+            if rng.random() < 0.3:      # an isometry-like input: orthogonal, either orientation
+                M = L.rorth(rng, m)
+                if rng.random() < 0.5:
+                    M = [[-x for x in r] if i == 0 else list(r) for i, r in enumerate(M)]
+            if L.exact_rank(M) < m:
+                break
+            mats.append(L.encM(M))
+        if len(mats) < cnt(shape):
+            continue
+        made += 1
+        yield {"m": m, "shape": shape, "mats": mats}
+
+
+def run_orient(inp):
+    m = inp["m"]
+    A = np.array([Q.decf(x) for x in inp["mats"]]).reshape(tuple(inp["shape"]) + (m, m))
+    keep = A.copy()
+    out = utils.make_orientation_preserving(A)
+    return {"shape": list(np.shape(out)), "out": L.units(np.asarray(out, dtype=float), 2).tolist(), "input_unchanged": bool(np.array_equal(A, keep))}
+
+
+def lean_orient(inp, obs):
+    return [{"op": "c18.make_oriented", "rows": M} for M in inp["mats"]]
+
+
+def judge_orient(inp, obs, lr):
+    tags = {"fn": "make_orientation_preserving", "m": inp["m"], "composite": bool(inp["shape"])}
+    if "exc" in obs:
+        return {"expected": "a matrix", "observed": obs, "tags": dict(tags, exc=obs["exc"]), "property_failure": True}
+    if obs["shape"] != inp["shape"] + [inp["m"], inp["m"]]:
+        return {"expected": inp["shape"] + [inp["m"], inp["m"]], "observed": obs["shape"], "tags": dict(tags, shape=True), "property_failure": True}
+    for res, iv in zip(lr, obs["out"]):
+        if "err" in res:
+            return {"expected": "model answer", "observed": res, "tags": dict(tags, driver_err=res["err"])}
+        mv = Q.decf(res["ok"]["M"])
+        if not close(np.array(iv), mv, 1e-12):
+            return {"expected": {"last row negated iff det < 0; det": res["ok"]["det"], "M": mv.tolist()}, "observed": iv,
+                    "tags": dict(tags, negated=F(res["ok"]["det"]) < 0), "property_failure": True}
+    return None
+
+
+# ------------------------------------------------------------------------------------------------
 # S2b: find_isometry with the kernel captured from the implementation
 # ------------------------------------------------------------------------------------------------
 class Capture:
@@ -1531,4 +1625,11 @@ CLAUSES = [
     Clause("arcs_oracle", "oracle", gen_arcs, run_arcs, judge_arco, site="utils.short_arc / right_to_left / arc_include",
            budget={"quick": 600, "thorough": 10000},
            what="output is the input pair modulo 2π and the counter-clockwise arc is short / right-to-left / contains the reference"),
+    # appended last so that the clauses above draw the same inputs from the one PRNG as before
+    Clause("ortho_corr", "corr", gen_ortho, run_ortho, judge_ortho, lean=lean_ortho, site="utils.indefinite_orthogonalize (with normalize)",
+           budget={"quick": 60, "thorough": 1500},
+           what="indefinite_orthogonalize incl. the final normalize vs Lean GS.indefiniteOrthogonalize with exact roots (c18.ortho), rows up to sign; inputs whose Gram–Schmidt square-norms are ± rational squares"),
+    Clause("orient_corr", "corr", gen_orient, run_orient, judge_orient, lean=lean_orient, site="utils.make_orientation_preserving",
+           budget={"quick": 60, "thorough": 1500},
+           what="make_orientation_preserving vs Lean GS.makeOriented (exact determinant, rowsMatrix / negLastRow) by value on invertible rational matrices, sizes 1-5, batch shapes"),
 ]
